@@ -197,7 +197,18 @@ fn line_comment_text(rng: &mut Rng) -> String {
         0 => format!("//{body}"),
         1 => format!("///{body}"),
         2 => format!("/// {body}"),
-        3 => "//----------------------------------------".to_string(),
+        3 => (*rng.pick(&[
+            "//----------------------------------------",
+            "//---------  ",
+            "//=====      ",
+            "//*********\t",
+            "//--------- ",
+            "////////////   ",
+            "//////////////////\t ",
+            "//////////",
+            "//-=-=-=-=-=-=-=  ",
+        ]))
+        .to_string(),
         4 => format!("// {body}   "),
         5 => "//".to_string(),
         _ => format!("// {body}"),
@@ -389,10 +400,18 @@ impl Layout {
                         0 => format!("{{$ifdef {name}}}"),
                         1 => format!("{{$IFNDEF {name}}}"),
                         2 => format!("{{$IF Defined({name}) and (CompilerVersion >= 30)}}"),
-                        3 => format!("(*$IFDEF {name}*)"),
+                        3 => (*rng.pick(&["(*$IFDEF {}*)", "(*$ifdef {}*)", "(*$IfNDef {}*)", "(*$if Defined({})*)"])).replace("{}", name),
                         _ => format!("{{$IFDEF {name}}}"),
                     };
-                    let close = if open.starts_with("{$IF ") { if rng.bool() { "{$IFEND}" } else { "{$ENDIF}" } } else if rng.chance(1, 5) { "{$endif}" } else { "{$ENDIF}" };
+                    let close = if open.starts_with("{$IF ") {
+                        if rng.bool() { "{$IFEND}" } else { "{$ENDIF}" }
+                    } else if open.starts_with("(*") {
+                        *rng.pick(&["(*$endif*)", "(*$ENDIF*)", "{$ENDIF}", "(*$EndIf*)"])
+                    } else if rng.chance(1, 5) {
+                        "{$endif}"
+                    } else {
+                        "{$ENDIF}"
+                    };
                     gaps.push(format!("{lead}{indent}"));
                     lead = nl.to_string();
                     pieces.push(Piece { kind: PieceKind::Directive, text: open, verbatim: false });
